@@ -25,6 +25,11 @@ KINDS = {
     "m": (0.01, "m", False),          # statement: 1 cm
     "deg": (1e-7, "deg", True),       # statement: 1e-7 degrees
     "los": (1e-6, "deg", True),       # DESIGN: zenith/azimuth to 1e-6 deg
+    # azimuth of a line of sight exactly in the meridian plane (aa = 0, 180):
+    # typhon recovers it through arccos at +-1, where an argument error of
+    # k eps costs sqrt(2 k eps) rad; k = 1e4 gives 1.2e-4 deg. A flip between
+    # north and south (180 deg) is what this catches.
+    "los-meridian": (5e-4, "deg", True),
 }
 
 
